@@ -6,7 +6,8 @@
 //! * `slot <op>;…`  `MetadataUpdate::merge_*` on a slot through `UpdateSlot`: `F<tag>`/`R<tag>` merge_metadata
 //!   without/with a refresh request, `T<tag>` merge_topology_update, `U<addr>`/`W<addr>` up/down hint, `K` take.
 //! * `stress <n> <mode> <seed>`  producer OS thread merges `0..n` then drops; consumer on a tokio runtime receives
-//!   until `None` (mode 1: inside a `select!` that keeps cancelling and restarting `recv`); oracle only.
+//!   until `None` (mode 1/2: inside a `select!` that keeps cancelling and restarting `recv`); oracle only.
+//! * `race <reps> <n> <seed>`  `reps` rounds of a tiny stream whose last merge is immediately followed by the drop.
 use crate::rng::Rng;
 use crate::{Ctx, Tier};
 use scylla::verif_hooks::merge_channel as hooks;
@@ -243,31 +244,54 @@ fn exhaustive_slot(depth: usize, emit: &mut dyn FnMut(String)) {
 
 pub fn generate(rng: &mut Rng, tier: Tier, emit: &mut dyn FnMut(String)) {
     let quick = tier == Tier::Quick;
-    // exhaustive legal interleavings at poll granularity
-    exhaustive(if quick { 8 } else { 10 }, emit);
-    // random long runs
-    for _ in 0..(if quick { 4_000 } else { 60_000 }) {
-        let len = *rng.pick(&[12usize, 20, 40, 80, 200]);
-        emit(random_chan(rng, len));
+    let mut light: Vec<String> = Vec::new();
+    {
+        let mut push = |c: String| light.push(c);
+        // exhaustive legal interleavings at poll granularity
+        exhaustive(if quick { 10 } else { 12 }, &mut push);
+        // random long runs
+        for _ in 0..(if quick { 4_000 } else { 60_000 }) {
+            let len = *rng.pick(&[12usize, 20, 40, 80, 200]);
+            push(random_chan(rng, len));
+        }
+        for _ in 0..(if quick { 1_500 } else { 20_000 }) {
+            let len = rng.range(1, 24) as usize;
+            push(sloppy_chan(rng, len));
+        }
+        // slot merges
+        exhaustive_slot(if quick { 5 } else { 6 }, &mut push);
+        for _ in 0..(if quick { 3_000 } else { 50_000 }) {
+            let len = rng.range(1, 30) as usize;
+            push(random_slot(rng, len));
+        }
     }
-    for _ in 0..(if quick { 1_500 } else { 20_000 }) {
-        let len = rng.range(1, 24) as usize;
-        emit(sloppy_chan(rng, len));
-    }
-    // slot merges
-    exhaustive_slot(if quick { 5 } else { 6 }, emit);
-    for _ in 0..(if quick { 3_000 } else { 50_000 }) {
-        let len = rng.range(1, 30) as usize;
-        emit(random_slot(rng, len));
-    }
-    // two OS threads
-    let (cases, n) = if quick { (24, 20_000u64) } else { (60, 200_000u64) };
+    // two OS threads (spread evenly over the case list so that the runner's chunks share them)
+    let mut heavy: Vec<String> = Vec::new();
+    let (cases, n) = if quick { (24, 50_000u64) } else { (60, 300_000u64) };
     for i in 0..cases {
-        emit(format!("stress {} {} {}", if i % 6 == 0 { n / 100 } else { n }, i % 3, rng.below(1 << 32)));
+        heavy.push(format!("stress {} {} {}", if i % 6 == 0 { n / 100 } else { n }, i % 3, rng.below(1 << 32)));
+    }
+    // end-of-stream race (last merge immediately followed by the drop), repeated many times per case
+    for i in 0..(if quick { 48 } else { 320 }) {
+        heavy.push(format!("race {} {} {}", if quick { 20_000 } else { 50_000 }, i % 4 + 1, rng.below(1 << 32)));
     }
     if !quick {
-        emit(format!("stress 1000000 0 {}", rng.below(1 << 32)));
-        emit(format!("stress 1000000 1 {}", rng.below(1 << 32)));
+        heavy.push(format!("stress 1000000 0 {}", rng.below(1 << 32)));
+        heavy.push(format!("stress 1000000 1 {}", rng.below(1 << 32)));
+        heavy.push(format!("stress 1000000 2 {}", rng.below(1 << 32)));
+    }
+    let every = (light.len() / heavy.len()).max(1);
+    let mut h = heavy.into_iter();
+    for (i, c) in light.into_iter().enumerate() {
+        if i % every == 0 {
+            if let Some(hc) = h.next() {
+                emit(hc);
+            }
+        }
+        emit(c);
+    }
+    for hc in h {
+        emit(hc);
     }
 }
 
@@ -586,13 +610,18 @@ fn run_slot(body: &str, ctx: &mut Ctx) -> String {
 // stress
 // ---------------------------------------------------------------------------------------------
 
-fn run_stress(n: u64, mode: u64, seed: u64, ctx: &mut Ctx) -> String {
+/// One producer thread merging `0..n` (paced by `pace`) then dropping; the consumer receives on `rt` until `None`.
+/// Returns the number of updates received in order (== n when nothing is wrong).
+fn stress_round(rt: &tokio::runtime::Runtime, n: u64, mode: u64, seed: u64, pace: bool, ctx: &mut Ctx) -> Option<u64> {
     let (mut tx, mut rx) = hooks::channel();
     let producer = std::thread::spawn(move || {
         let mut rng = Rng::new(seed);
         for x in 0..n {
             if tx.merge(x).is_err() {
                 return Err(x);
+            }
+            if !pace {
+                continue;
             }
             // vary the producer's pace so that the consumer is sometimes parked, sometimes running
             match rng.below(64) {
@@ -609,7 +638,6 @@ fn run_stress(n: u64, mode: u64, seed: u64, ctx: &mut Ctx) -> String {
         drop(tx);
         Ok(())
     });
-    let rt = tokio::runtime::Builder::new_current_thread().enable_time().build().unwrap();
     let consumer = async {
         let mut next = 0u64; // the next update expected
         let mut problems: Vec<String> = Vec::new();
@@ -646,11 +674,12 @@ fn run_stress(n: u64, mode: u64, seed: u64, ctx: &mut Ctx) -> String {
         }
         (next, problems)
     };
-    let res = rt.block_on(async { tokio::time::timeout(std::time::Duration::from_secs(120), consumer).await });
+    let limit = std::time::Duration::from_secs(if pace { 20 } else { 5 } + n / 20_000);
+    let res = rt.block_on(async { tokio::time::timeout(limit, consumer).await });
     match res {
         Err(_) => {
-            ctx.fail("consumer did not finish within 120 s: lost wake-up (hang)");
-            "hang".into()
+            ctx.fail(format!("consumer did not finish within {} s: lost wake-up (hang)", limit.as_secs()));
+            None
         }
         Ok((next, problems)) => {
             for p in problems {
@@ -664,9 +693,35 @@ fn run_stress(n: u64, mode: u64, seed: u64, ctx: &mut Ctx) -> String {
             if next != n {
                 ctx.fail(format!("None received after updates 0..{}, but 0..{} were merged before the drop", next, n));
             }
-            format!("received=0..{} in-order none-last", next)
+            Some(next)
         }
     }
+}
+
+fn run_stress(n: u64, mode: u64, seed: u64, ctx: &mut Ctx) -> String {
+    let rt = tokio::runtime::Builder::new_current_thread().enable_time().build().unwrap();
+    match stress_round(&rt, n, mode, seed, true, ctx) {
+        None => "hang".into(),
+        Some(next) => format!("received=0..{} in-order none-last", next),
+    }
+}
+
+/// `reps` rounds of a tiny stream (`n` merges, then the drop at once): exercises the window between the consumer's
+/// first `take()` and its load of `sender_dropped` (merge_channel.rs:162-170) `reps` times.
+fn run_race(reps: u64, n: u64, seed: u64, ctx: &mut Ctx) -> String {
+    let rt = tokio::runtime::Builder::new_current_thread().enable_time().build().unwrap();
+    let mut good = 0;
+    for r in 0..reps {
+        match stress_round(&rt, n, r % 2, seed.wrapping_add(r), false, ctx) {
+            None => return "hang".into(),
+            Some(next) if next == n => good += 1,
+            Some(_) => {}
+        }
+        if ctx.oracle_failures.len() > 5 {
+            break;
+        }
+    }
+    format!("rounds={} each=0..{} in-order none-last", good, n)
 }
 
 pub fn run(case: &str, ctx: &mut Ctx) -> String {
@@ -678,6 +733,10 @@ pub fn run(case: &str, ctx: &mut Ctx) -> String {
         ["slot", body] => run_slot(body, ctx),
         ["stress", n, mode, seed] => match (n.parse(), mode.parse(), seed.parse()) {
             (Ok(n), Ok(mode), Ok(seed)) => run_stress(n, mode, seed, ctx),
+            _ => "bad-case".into(),
+        },
+        ["race", reps, n, seed] => match (reps.parse(), n.parse(), seed.parse()) {
+            (Ok(reps), Ok(n), Ok(seed)) => run_race(reps, n, seed, ctx),
             _ => "bad-case".into(),
         },
         _ => "bad-case".into(),
